@@ -16,31 +16,40 @@ class Stamps:
     def __init__(self):
         self.full = {}
         self.salts = {}
+        self.secs = {}
 
     def add(self, salt, nsectors, label=None):
         self.salts[salt] = (nsectors, label)
-        for l in range(nsectors):
-            self.full[stamp(salt, l)] = (salt, l)
+        self.secs[salt] = [stamp(salt, l) for l in range(nsectors)]
+        for l, b in enumerate(self.secs[salt]):
+            self.full[b] = (salt, l)
 
-    def origin(self, chunk):
-        """chunk: up to 256 bytes taken from a sector start. Returns (salt, lba) or None."""
+    def origin(self, chunk, expect=None):
+        """chunk: up to 256 bytes taken from a sector start. Returns (salt, lba) or None.  A short chunk is
+        first compared with the expected sector (short prefixes are not unique)."""
         if len(chunk) == SECTOR:
             return self.full.get(bytes(chunk))
         n = len(chunk)
         if n == 0:
             return ("empty", 0)
-        for s, (ns, _) in self.salts.items():
-            for l in range(ns):
-                if stamp(s, l)[:n] == bytes(chunk):
+        c = bytes(chunk)
+        if expect is not None:
+            es, el = expect
+            if es in self.secs and 0 <= el < len(self.secs[es]) and self.secs[es][el][:n] == c:
+                return (es, el)
+        for s, arr in self.secs.items():
+            for l, b in enumerate(arr):
+                if b[:n] == c:
                     return (s, l)
         return None
 
-    def segments(self, data):
-        """Split data into sector-sized chunks and identify each; returns list of (salt,lba,len) or None entries."""
+    def segments(self, data, expect_salt=None, expect_lba=None):
+        """Split data into sector-sized chunks and identify each; returns list of (salt,lba,len) or None entries.
+        expect_*: where the first chunk is expected to come from (used only to disambiguate short chunks)."""
         out = []
         for p in range(0, len(data), SECTOR):
             c = data[p:p + SECTOR]
-            o = self.origin(c)
+            o = self.origin(c, (expect_salt, expect_lba + p // SECTOR) if expect_salt is not None else None)
             out.append((o[0], o[1], len(c)) if o else None)
         return out
 
